@@ -51,7 +51,7 @@ func randDuration(rng *rand.Rand) time.Duration {
 }
 
 func runC10(b *Batch) {
-	n := b.Pick(200000, 8000000) / b.NBatches
+	n := b.Pick(200000, 32000000) / b.NBatches
 	for i := 0; i < n; i++ {
 		if b.Skip(i) {
 			continue
